@@ -30,13 +30,28 @@ type binScenario struct {
 	Probes []float64 `json:"probes"` // seconds after the login at which an application request is made
 }
 
+var (
+	portMu    sync.Mutex
+	portsUsed = map[int]bool{}
+)
+
+// freePort returns a port that is free now and that this process has not handed out before.
 func freePort() int {
-	l, err := net.Listen("tcp", "127.0.0.1:0")
-	if err != nil {
-		return 0
+	portMu.Lock()
+	defer portMu.Unlock()
+	for i := 0; i < 50; i++ {
+		l, err := net.Listen("tcp", "127.0.0.1:0")
+		if err != nil {
+			continue
+		}
+		p := l.Addr().(*net.TCPAddr).Port
+		_ = l.Close()
+		if !portsUsed[p] {
+			portsUsed[p] = true
+			return p
+		}
 	}
-	defer l.Close()
-	return l.Addr().(*net.TCPAddr).Port
+	return 0
 }
 
 func runBinaryScenario(bin, out, tmp string, sc binScenario) error {
@@ -83,34 +98,64 @@ func runBinaryScenario(bin, out, tmp string, sc binScenario) error {
 	}
 	var doc map[string]any
 	_ = json.Unmarshal(raw, &doc)
-	port, hport := freePort(), freePort()
-	doc["listen_port"], doc["health_listen_port"] = port, hport
-	raw, _ = json.Marshal(doc)
-	cfgPath := filepath.Join(tmp, "binary-config.json")
-	if err := os.WriteFile(cfgPath, raw, 0o600); err != nil {
-		return err
-	}
-	cmd := exec.Command(bin, "--config-path", cfgPath)
-	logf, _ := os.Create(filepath.Join(tmp, "binary.log"))
-	cmd.Stdout, cmd.Stderr = logf, logf
-	if err := cmd.Start(); err != nil {
-		return err
-	}
-	defer func() { _ = cmd.Process.Kill(); _, _ = cmd.Process.Wait(); _ = logf.Close() }()
-	addr := fmt.Sprintf("127.0.0.1:%d", port)
-	up := false
-	for i := 0; i < 200; i++ {
-		if c, err := net.DialTimeout("tcp", addr, 200*time.Millisecond); err == nil {
-			_ = c.Close()
-			up = true
-			break
+	// The binary listens on ports of its own. A port found free may be taken by the time the binary binds it (eight binaries,
+	// their providers and Redis servers start at the same moment): a binary that ends before it serves is started again on
+	// other ports, a few times.
+	var (
+		cmd  *exec.Cmd
+		logf *os.File
+		addr string
+		up   bool
+		last string
+	)
+	for attempt := 0; attempt < 6 && !up; attempt++ {
+		port, hport := freePort(), freePort()
+		doc["listen_port"], doc["health_listen_port"] = port, hport
+		raw, _ = json.Marshal(doc)
+		cfgPath := filepath.Join(tmp, fmt.Sprintf("binary-config-%d.json", attempt))
+		if err := os.WriteFile(cfgPath, raw, 0o600); err != nil {
+			return err
 		}
-		time.Sleep(50 * time.Millisecond)
+		cmd = exec.Command(bin, "--config-path", cfgPath)
+		logPath := filepath.Join(tmp, fmt.Sprintf("binary-%d.log", attempt))
+		logf, _ = os.Create(logPath)
+		cmd.Stdout, cmd.Stderr = logf, logf
+		if err := cmd.Start(); err != nil {
+			return err
+		}
+		exited := make(chan struct{})
+		go func(c *exec.Cmd) { _, _ = c.Process.Wait(); close(exited) }(cmd)
+		addr = fmt.Sprintf("127.0.0.1:%d", port)
+		gone := false
+		for i := 0; i < 200 && !up && !gone; i++ {
+			select {
+			case <-exited:
+				gone = true
+			case <-time.After(50 * time.Millisecond):
+				if c, err := net.DialTimeout("tcp", addr, 200*time.Millisecond); err == nil {
+					_ = c.Close()
+					// somebody listens there; it is our binary if that is still running a moment later (a binary that could not
+					// bind its port ends within milliseconds)
+					select {
+					case <-exited:
+						gone = true
+					case <-time.After(300 * time.Millisecond):
+						up = true
+					}
+				}
+			}
+		}
+		if !up {
+			b, _ := os.ReadFile(logPath)
+			last = string(b)
+			_ = cmd.Process.Kill()
+			_ = logf.Close()
+		}
 	}
 	if !up {
-		b, _ := os.ReadFile(filepath.Join(tmp, "binary.log"))
-		return fmt.Errorf("binary did not start listening on %s: %s", addr, string(b))
+		return fmt.Errorf("binary did not start serving in six attempts: %s", last)
 	}
+	defer func() { _ = cmd.Process.Kill(); _ = logf.Close() }()
 	conn, err := grpc.NewClient(addr, grpc.WithTransportCredentials(insecure.NewCredentials()))
 	if err != nil {
 		return err
